@@ -144,7 +144,7 @@ func c11Scenarios() []c11Scenario {
 	add("seqboot-frac-shuf", true, true, "build", "seqboot", "-n", "2", "-f", "0.5", "-S", "-o", "boot", "-i", "@nt.fa")
 	add("seqboot-tar", true, true, "build", "seqboot", "-n", "2", "--tar", "-o", "boot", "-i", "@nt.fa")
 	add("seqboot-gz", true, true, "build", "seqboot", "-n", "2", "--gz", "-o", "boot", "-i", "@nt.fa")
-	add("distboot", true, true, "build", "distboot", "-n", "3", "-m", "jc", "-i", "@nt.fa")
+	add("distboot", true, true, "build", "distboot", "-n", "2", "-m", "jc", "-i", "@nt.fa")
 	add("weightboot", true, false, "build", "weightboot", "-n", "2", "-i", "@nt.fa")
 	// --- phasing, ORF, pairwise alignment, translation
 	add("phase", false, true, "phase", "--unaligned", "-i", "@unal.fa", "--aa-output", "aa.out", "-l", "log.out")
@@ -232,6 +232,32 @@ func c11Diff(a, b c11Obs) string {
 	return ""
 }
 
+// c11SameLines: same exit status and, in stdout and in every file, the same multiset of lines.
+func c11SameLines(a, b c11Obs) bool {
+	if a.Exit != b.Exit || len(a.Files) != len(b.Files) {
+		return false
+	}
+	same := func(x, y string) bool {
+		if strings.HasPrefix(x, "sha256:") || strings.HasPrefix(y, "sha256:") {
+			return x == y
+		}
+		lx, ly := strings.Split(x, "\n"), strings.Split(y, "\n")
+		sort.Strings(lx)
+		sort.Strings(ly)
+		return strings.Join(lx, "\n") == strings.Join(ly, "\n")
+	}
+	if !same(a.Stdout, b.Stdout) {
+		return false
+	}
+	for n, x := range a.Files {
+		y, ok := b.Files[n]
+		if !ok || !same(x, y) {
+			return false
+		}
+	}
+	return true
+}
+
 func c11Short(s string) string {
 	if len(s) > 300 {
 		return s[:300] + "…"
@@ -246,6 +272,8 @@ type c11Run struct {
 	Bound    int         `json:"bound"`
 	Choices  []vrt.Point `json:"choices,omitempty"`
 	Plain    bool        `json:"plain,omitempty"`
+	ShardN   int         `json:"shard_n,omitempty"`
+	ShardI   int         `json:"shard_i,omitempty"`
 }
 
 func c11Find(name string) (c11Scenario, bool) {
@@ -263,12 +291,13 @@ var c11Seq int
 func c11Exec(sc c11Scenario, seed, threads int, plain bool, sub *vrt.SubIn) (obs c11Obs, out *vrt.SubOut, err error) {
 	c11Seq++
 	dir := filepath.Join(mc.ScratchDir, fmt.Sprintf("c11-%s-%d", os.Getenv("VERIF_WORKER_ID"), c11Seq))
-	if err = os.MkdirAll(filepath.Join(dir, "in"), 0o755); err != nil {
+	work := filepath.Join(dir, "w")
+	// input files are named relative to the working directory (some commands write the names of
+	// their inputs into their output: the name must be the same in every execution)
+	if err = os.MkdirAll(filepath.Join(work, "in"), 0o755); err != nil {
 		return
 	}
 	defer os.RemoveAll(dir)
-	work := filepath.Join(dir, "w")
-	os.MkdirAll(work, 0o755)
 	var args []string
 	for _, a := range sc.Args {
 		if strings.HasPrefix(a, "@") {
@@ -277,11 +306,10 @@ func c11Exec(sc c11Scenario, seed, threads int, plain bool, sub *vrt.SubIn) (obs
 				err = fmt.Errorf("unknown input file %s", a)
 				return
 			}
-			p := filepath.Join(dir, "in", a[1:])
-			if err = os.WriteFile(p, []byte(content), 0o644); err != nil {
+			if err = os.WriteFile(filepath.Join(work, "in", a[1:]), []byte(content), 0o644); err != nil {
 				return
 			}
-			a = p
+			a = "in/" + a[1:]
 		}
 		args = append(args, a)
 	}
@@ -332,8 +360,11 @@ func c11Exec(sc c11Scenario, seed, threads int, plain bool, sub *vrt.SubIn) (obs
 		if e != nil || info.IsDir() {
 			return nil
 		}
-		b, _ := os.ReadFile(p)
 		rel, _ := filepath.Rel(work, p)
+		if strings.HasPrefix(rel, "in"+string(filepath.Separator)) {
+			return nil // the inputs
+		}
+		b, _ := os.ReadFile(p)
 		if len(b) <= 400 && !bytes.ContainsRune(b, 0) {
 			obs.Files[rel] = string(b)
 		} else {
@@ -382,7 +413,7 @@ func c11Explore(c *mc.Ctx, r c11Run) {
 		return
 	}
 	c.Outcome(fmt.Sprintf("%s:exit%d", strings.SplitN(sc.Name, "-", 2)[0], ref.Exit))
-	ex := &mc.Explorer{Ctx: c, Opts: c11Opts, Bound: map[string]int{"sched": r.Bound, "map": r.Bound, "now": r.Bound}, TotalBound: r.Bound}
+	ex := &mc.Explorer{Ctx: c, Opts: c11Opts, Bound: map[string]int{"sched": r.Bound, "map": r.Bound, "now": r.Bound}, TotalBound: r.Bound, ChargeFree: map[string]bool{"sched": true}, ShardN: r.ShardN, ShardI: r.ShardI}
 	var fatal error
 	ex.Runner = func(prefix []vrt.Point) *mc.Execution {
 		obs, out, err := c11Exec(sc, r.Seed, r.Threads, false, &vrt.SubIn{Points: prefix, Opts: c11Opts})
@@ -428,20 +459,59 @@ func c11Explore(c *mc.Ctx, r c11Run) {
 		}
 		if d := c11Diff(ref, obs); d != "" {
 			failed = true
+			x.NoExpand = true // executions with further deviations on top of this one are explained by it
+			// which deviations are needed?  Drop them one at a time while the output still differs
+			// (a replay that no longer fits the program's choice points is simply not a candidate).
+			pts := append([]vrt.Point{}, x.Exec.Points...)
+			isDev := func(p vrt.Point) bool { return p.Chosen != 0 }
+			last := func(ps []vrt.Point) int {
+				l := -1
+				for i, p := range ps {
+					if isDev(p) {
+						l = i
+					}
+				}
+				return l
+			}
+			pts = pts[:last(pts)+1]
+			for changed := true; changed && len(pts) > 0; {
+				changed = false
+				for i := range pts {
+					if !isDev(pts[i]) {
+						continue
+					}
+					cand := append([]vrt.Point{}, pts...)
+					cand[i].Chosen = 0
+					cand = cand[:last(cand)+1]
+					o2, out2, err := c11Exec(sc, r.Seed, r.Threads, false, &vrt.SubIn{Points: cand, Opts: c11Opts})
+					c.Count("runs_minimisation", 1)
+					if err != nil || out2 == nil || (out2.End != "return" && out2.End != "exit") {
+						continue
+					}
+					if c11Diff(ref, o2) != "" {
+						pts, obs, changed = cand, o2, true
+						break
+					}
+				}
+			}
+			d = c11Diff(ref, obs)
 			kind := "output-depends-on"
+			if c11SameLines(ref, obs) {
+				kind = "output-order-depends-on" // same lines everywhere, in another order
+			}
 			var kinds []string
 			seen := map[string]bool{}
-			for _, p := range x.Exec.Points {
-				if p.Chosen != 0 && p.Cost > 0 && !seen[p.Kind] {
+			for _, p := range pts {
+				if isDev(p) && !seen[p.Kind] {
 					seen[p.Kind] = true
 					kinds = append(kinds, p.Kind)
 				}
 			}
-			if r.Threads != 1 && len(kinds) == 0 {
+			if len(kinds) == 0 {
 				kinds = []string{"threads"}
 			}
 			sort.Strings(kinds)
-			viol(kind+"/"+strings.Join(kinds, "+"), "output differs from the default one-thread execution: "+d, x.Exec.Points)
+			viol(kind+"/"+strings.Join(kinds, "+"), "output differs from the default one-thread execution: "+d, pts)
 			return
 		}
 		if ex.Executions == 2 {
@@ -644,7 +714,7 @@ func init() {
 	mc.Register(&mc.Prop{
 		ID:    "C11",
 		Level: "model_checking",
-		Rule: "subprocess-mode exploration of the goalign binary instrumented from the current tree: for each of the listed command scenarios (every documented command family, 1-3 flag sets each, on small nucleotide / protein / multi-Phylip / malformed-second-alignment inputs) x seeds {1,7} (randomised commands) x --threads {1,2,3,16} (threaded commands): the default execution, then EVERY execution within 1 (quick) / 2 (thorough) deviations from it (with 16 threads: the default execution only) — a deviation is one preemption at a channel/mutex/WaitGroup/spawn operation, one non-sorted iteration order at a ranged map, or one clock step at time.Now — must give exactly the bytes (stdout, exit status, every file written) of the default one-thread execution, end normally, and show no data race (vector clocks). " +
+		Rule: "subprocess-mode exploration of the goalign binary instrumented from the current tree: for each of the listed command scenarios (every documented command family, 1-3 flag sets each, on small nucleotide / protein / multi-Phylip / malformed-second-alignment inputs) x seeds {1,7} (randomised commands) x --threads {1,2,3,16} (threaded commands): the default execution, then EVERY execution within 2 (quick) / 3 (thorough) deviations from it (with 3 and 16 threads: 1 / 2) — a deviation is one scheduling decision other than the default (keep the running goroutine, else the lowest runnable id) at a channel/mutex/WaitGroup/spawn operation, one non-sorted iteration order at a ranged map, or one clock step at time.Now — must give exactly the bytes (stdout, exit status, every file written) of the default one-thread execution, end normally, and show no data race (vector clocks). " +
 			"Reformat chains: ALL format sequences of <=3 conversions among fasta/phylip/nexus/clustal that return to the starting format, on 4 inputs, must return the starting bytes; build distboot == build seqboot + compute distance for 4 models x 2 seeds. Each scenario also runs on the uninstrumented binary and on the instrumented binary in pass-through mode (must agree). states/transitions = nodes/edges of the choice trees; distinct_nontrivial = distinct (scenario, seed, threads, choice list) executions compared.",
 		Assumptions: []string{
 			"scheduling points only at synchronisation operations (channel, mutex, WaitGroup, go); data races are reported separately by vector clocks",
@@ -652,9 +722,9 @@ func init() {
 			"when main returns the process ends (goroutines still blocked are not run further), as in Go",
 		},
 		Tasks: func(tier string) []mc.Task {
-			bound := 1
+			bound := 2
 			if tier == "thorough" {
-				bound = 2
+				bound = 3
 			}
 			var ts []mc.Task
 			for _, sc := range c11Scenarios() {
@@ -669,12 +739,20 @@ func init() {
 				for _, sd := range seeds {
 					for _, th := range threads {
 						r := c11Run{Scenario: sc.Name, Seed: sd, Threads: th, Bound: bound}
-						if th == 16 {
-							// 16 workers: the default execution only (compared with the one-thread bytes):
-							// even the free choices among 16 runnable workers make the tree explode
-							r.Bound = -1
+						if th == 16 || th == 3 {
+							r.Bound = bound - 1 // 3 and 16 workers: one deviation less
 						}
-						ts = append(ts, mc.Task{Name: fmt.Sprintf("explore#%s/seed%d/t%d", sc.Name, sd, th), Run: func(c *mc.Ctx) { c11Explore(c, r) }})
+						nsh := 1
+						if th >= 2 {
+							nsh = 8
+						}
+						for sh := 0; sh < nsh; sh++ {
+							rs := r
+							if nsh > 1 {
+								rs.ShardN, rs.ShardI = nsh, sh
+							}
+							ts = append(ts, mc.Task{Name: fmt.Sprintf("explore#%s/seed%d/t%d/shard%d", sc.Name, sd, th, sh), Run: func(c *mc.Ctx) { c11Explore(c, rs) }})
+						}
 						rp := r
 						rp.Plain = true
 						ts = append(ts, mc.Task{Name: fmt.Sprintf("plain#%s/seed%d/t%d", sc.Name, sd, th), Run: func(c *mc.Ctx) { c11Plain(c, rp) }})
@@ -732,7 +810,7 @@ func init() {
 			}
 		},
 		Vacuity: func(tier string, t *mc.Totals) error {
-			if t.Extra["runs_instrumented"] < 2000 || t.Extra["trees"] < 100 {
+			if t.Extra["runs_instrumented"] < 20000 || t.Extra["trees"] < 100 {
 				return fmt.Errorf("too little explored: %v", t.Extra)
 			}
 			multi := int64(0)
